@@ -43,6 +43,19 @@ def ensure_cxx2c():
         raise Undecided('cannot build cxx2c: ' + err[-2000:])
 
 
+_LOCK = None
+def selector_lock():
+    """selectors.lock.json: qualified name -> the one function a plain selector resolved to on the pinned tree (tools/selectorlock); consulted
+    only when a later overload makes the plain selector ambiguous"""
+    global _LOCK
+    if _LOCK is None:
+        try:
+            _LOCK = json.load(open(os.path.join(VERIF, 'selectors.lock.json')))
+        except Exception:
+            _LOCK = {}
+    return _LOCK
+
+
 class Unit:
     """A set of root functions of one translation unit of /repo (or of a driver TU that only instantiates templates)."""
     def __init__(self, name, tu, roots=(), prefixes=(), mangled=(), outline=(), transparent=('std::basic_string_view', 'std::pair'), names=None, catalogue=False, vroots=(), transparent_fn=('std::equal_to', 'std::basic_string_view<char8_t>::basic_string_view', 'std::basic_string_view<char8_t>::empty', 'std::basic_string_view<char8_t>::data', 'std::basic_string_view<char8_t>::length', 'std::basic_string_view<char8_t>::size', 'std::pair<')):
@@ -87,6 +100,12 @@ class Unit:
         pool = self.json['functions'] + self.json['no_body']
         hits = [f for f in pool if f['qualified'] == q and (sub is None or (sub.startswith('=') and f['name'] == sub[1:]) or (not sub.startswith('=') and (sub in f.get('type', '') or sub in f['name'])))]
         names = sorted(set(f['name'] for f in hits))
+        if len(names) > 1 and sub is None and selector_lock().get(q) in names:
+            # an overload was added next to the function this selector was written for: keep to the function it named on the pinned tree
+            names = [selector_lock()[q]]
+        if len(names) == 1 and sub is None and os.environ.get('IPR_RECORD_LOCK'):
+            with open(os.environ['IPR_RECORD_LOCK'], 'a') as lf:
+                lf.write('%s\t%s\n' % (q, names[0]))
         if len(names) != 1:
             raise Undecided('MUST-FIRE: selector %s=%r matches %d functions in unit %s: %s' % (short, sel, len(names), self.name, names[:5]))
         return names[0]
@@ -467,9 +486,18 @@ def run_property(pid, tier, obs, units, seed, level='proof', assumptions=(), tru
     violations, known_hits = [], []
     os.makedirs(os.path.join(OUT, 'replay_out'), exist_ok=True)
     obmap = {o.id: o for o in obs}
+    status_of = {r['id']: r['status'] for r in results}
+    downgraded = []
     for r in results:
         if r['status'] == 'undecided':
-            undecided.append(dict(id=r['id'], reason=r['reason']))
+            o = obmap.get(r['id'])
+            si = getattr(o, 'stand_in', None) if o else None
+            if si and (r['reason'].startswith('goto-cc failed') or r['reason'].startswith('MUST-FIRE')) and all(status_of.get(x) == 'pass' for x in si):
+                # the harness of a loop VC no longer fits the shape of the (changed) loop: this is not a failed proof.  The bounded
+                # obligations that run the same function whole stand in, together with the native sweep; recorded as bounded, never as proved.
+                downgraded.append(dict(id=r['id'], reason=r['reason'][:400], stand_in=list(si)))
+            else:
+                undecided.append(dict(id=r['id'], reason=r['reason']))
         elif r['status'] == 'fail':
             # a listed finding suppresses exactly the failed assertions it matches
             rest = []
@@ -515,7 +543,7 @@ def run_property(pid, tier, obs, units, seed, level='proof', assumptions=(), tru
                     continue
                 violations.append((r, rp, confirmed))
     sweep_ran = None
-    if (undecided or always_sweep) and not violations and sweep_family:
+    if (undecided or downgraded or always_sweep) and not violations and sweep_family:
         # nothing decided for some obligation: fall back to the native sweep of this property on the real code, so that an
         # undecided run does not hide a reproducible failure.  This is a bounded native exploration, labelled as such.
         try:
@@ -528,12 +556,18 @@ def run_property(pid, tier, obs, units, seed, level='proof', assumptions=(), tru
             json.dump(dict(property=pid, obligation='(undecided: %s)' % '; '.join(u_['id'] for u_ in undecided), kind='native sweep (bounded exploration fallback)',
                            undecided=undecided, native_family=sweep_family, native_args={}, native=text, reproduced_on_real_code=True), open(rp, 'w'), indent=1)
             violations.append((dict(id='native-sweep', failed=[dict(description=l) for l in text.splitlines() if 'REPLAY-FAIL' in l][:4]), rp, True))
+        elif ok is None and downgraded:      # no sweep result: the stand-in is incomplete, so these stay undecided
+            undecided += [dict(id=d['id'], reason=d['reason']) for d in downgraded]; downgraded = []
+    elif downgraded:
+        undecided += [dict(id=d['id'], reason=d['reason']) for d in downgraded]; downgraded = []
     for k, r, f in known_hits:
         print('KNOWN-FINDING: property=%s %s [obligation %s: %s]' % (pid, k['text'], r['id'], f['description']))
     for r, rp, confirmed in violations:
         print('VIOLATION property=%s replay=%s%s' % (pid, rp, '' if confirmed else ' no-failing-input-found'))
         for f in r['failed'][:4]:
             print('   obligation %s failed: %s' % (r['id'], f['description']))
+    for d in downgraded:
+        print('DOWNGRADED %s: loop-VC harness does not fit the current loop (%s); bounded stand-in %s and the native sweep passed' % (d['id'], d['reason'][:160].replace('\n', ' '), ','.join(d['stand_in'])), file=sys.stderr)
     for u_ in undecided:
         print('UNDECIDED %s: %s' % (u_['id'], u_['reason'][:600]), file=sys.stderr)
     proved = [r for r in results if r['status'] == 'pass' and r['kind'] != 'K5']
@@ -549,9 +583,10 @@ def run_property(pid, tier, obs, units, seed, level='proof', assumptions=(), tru
         functions_under_contract=sorted(set(sum([list(x) for x in (extra or {}).get('functions_under_contract', [])], []))) if False else (extra or {}).get('functions_under_contract', []),
         obligations_detail=[dict(id=r['id'], kind=r['kind'], clause=r['clause'], status=r['status'], properties=r['properties'], canaries=r['canaries'],
                                  solver_s=r['solver_s'], backend=r['backend'], cmd=r.get('cmd', '')) for r in results],
-        bounded=[dict(id=r['id'], bound=obmap[r['id']].bounded, status=r['status']) for r in bounded],
+        bounded=[dict(id=r['id'], bound=obmap[r['id']].bounded, status=r['status']) for r in bounded] +
+                [dict(id=d['id'], bound='loop VC not applicable to the current loop shape; stands on %s and the native sweep' % ', '.join(d['stand_in']), status='downgraded') for d in downgraded],
         samples=[dict(id=r['id'], clause=r['clause'], kind=r['kind'], cbmc_properties=r['properties']) for r in results[:6]],
-        undecided=undecided, known_findings_matched=[k['text'] for k, _, _ in known_hits],
+        undecided=undecided, downgraded=downgraded, known_findings_matched=[k['text'] for k, _, _ in known_hits],
         lowering=[dict(unit=u.name, tu=u.tu, functions=len(u.json['functions']) if u.json else 0, seconds=round(getattr(u, 'lower_s', 0), 1)) for u in units],
     )
     if extra:
